@@ -1915,6 +1915,9 @@ def replace_pad_by_hw_pad(op: Operation, arch, nng) -> Operation:
         if pad_op.ofm_shapes[0] != op.ifm_shapes[0]:
             # The operation sees the padded tensor in another shape (a bypassed reshape in between)
             return op
+        if op.ifm_resampling_mode != resampling_mode.NONE:
+            # Hardware padding is applied to the upscaled IFM (the depthwise step of a lowered resize)
+            return op
         if pad_op.ifm.dtype != pad_op.ofm.dtype or not check_quantized_tens_scaling_equal(pad_op.ofm, pad_op.ifm):
             return op
         top, left, bottom, right = get_pad_values_from_input(pad_op.inputs[1].values)
